@@ -30,6 +30,7 @@ LEVEL = "model_checking"
 HELPER = r"""
 local function bfs(roots, forbidden, reqnames, sandbox_require)
   local seen, queue, parent, edge = {}, {}, {}, {}
+  local derived, derived_from = {}, nil
   local nobj, nedge = 0, 0
   local hits = {}
   local pyobjs = {}
@@ -40,6 +41,7 @@ local function bfs(roots, forbidden, reqnames, sandbox_require)
     if seen[v] then return end
     seen[v] = true; nobj = nobj + 1
     parent[v] = from; edge[v] = label
+    if from ~= nil and derived[from] then derived[v] = true end
     if forbidden[v] then hits[#hits+1] = {forbidden[v], v} end
     if t == "userdata" then pyobjs[#pyobjs+1] = v end
     queue[#queue+1] = v
@@ -77,6 +79,18 @@ local function bfs(roots, forbidden, reqnames, sandbox_require)
     if type(v) == "table" or type(v) == "userdata" then
       local ok, mt = pcall(getmetatable, v)
       if ok and mt ~= nil then visit(mt, v, ":getmetatable()") end
+    end
+    if type(v) == "userdata" and not derived[v] then
+      -- a Python callable invoked with no arguments: its result, or the error value page code would catch with
+      -- pcall (one level: objects that only exist as results of such calls are not called again)
+      local before = #queue
+      local ok, r = pcall(v)
+      visit(r, v, ok and "()" or ":pcall()-error")
+      for j = before + 1, #queue do derived[queue[j]] = true end
+    end
+    if derived[v] then
+      -- everything first discovered below a call result inherits the mark
+      derived_from = v
     end
   end
   local out = {}
@@ -189,6 +203,16 @@ def reachability(history):
             if isinstance(o, tuple):
                 for i, x in enumerate(o):
                     q.append((x, p + "[%d]" % i))
+                continue
+            if isinstance(o, BaseException):
+                # what page code can read from a caught Python exception: its args
+                for i, x in enumerate(getattr(o, "args", ())):
+                    q.append((x, p + ".args[%d]" % i))
+                for n in ("name", "obj", "value", "filename"):
+                    if hasattr(o, n):
+                        q.append((getattr(o, n), p + "." + n))
+                continue
+            if isinstance(o, (types.BuiltinFunctionType, types.BuiltinMethodType, types.MethodWrapperType)):
                 continue
             if isinstance(o, types.FunctionType):
                 names = [n for n in dir(o) if not n.startswith("_")]
